@@ -282,7 +282,7 @@ func genStyleAttrs(r *prng.R, i int) *astisub.StyleAttributes {
 	if r.Bool(0.6) { // WebVTT style blocks spread over several styles
 		n := r.Range(1, 3)
 		for k := 0; k < n; k++ {
-			a.WebVTTStyles = append(a.WebVTTStyles, fmt.Sprintf("::cue(.s%d_%d) { color: #%06x; }", i, k, r.Intn(1<<24)))
+			a.WebVTTStyles = append(a.WebVTTStyles, fmt.Sprintf("::cue(.s%d_%d) { color: %s; }", i, k, r.Pick(fmt.Sprintf("#%06x", r.Intn(1<<24)), "#ffa500", "#123456", "#FFA500", "#abcdef")))
 		}
 	}
 	if r.Bool(0.3) {
@@ -336,7 +336,8 @@ func genItemAttrs(r *prng.R) *astisub.StyleAttributes {
 
 // genColor draws colour strings in the spellings a "harmless" normalisation would alter.
 func genColor(r *prng.R) string {
-	return r.Pick("white", "#ff0000", "#00ffff", "#ffff00", "#FF00FF", "Red", "#00FF00", " yellow ", "rgba(255,0,0,255)")
+	// incl. colours that STYLE blocks of other generated lists declare classes for
+	return r.Pick("white", "#ff0000", "#00ffff", "#ffff00", "#FF00FF", "Red", "#00FF00", " yellow ", "rgba(255,0,0,255)", "#ffa500", "#123456", "#ABCDEF")
 }
 
 func genLineItemAttrs(r *prng.R) *astisub.StyleAttributes {
